@@ -114,7 +114,15 @@ fn gen_lang(a: &HashMap<String, String>) {
         }
     }
     let w = World::new(specs.clone(), ctxs.clone());
-    write_ndjson(&format!("{out}/schemes.ndjson"), &specs);
+    // the character-level specification needs the code points of every identifier (TLA+ strings have none)
+    let with_idents: Vec<Value> = specs.iter().map(|s| {
+        let mut v = serde_json::to_value(s).unwrap();
+        let ids: Vec<Value> = s.fields.iter().map(|f| &f.name).chain(s.funcs.iter().map(|f| &f.name))
+            .map(|n| json!({"name": n, "cp": n.chars().map(|c| c as u32).collect::<Vec<_>>()})).collect();
+        v["idents"] = json!(ids);
+        v
+    }).collect();
+    write_ndjson(&format!("{out}/schemes.ndjson"), &with_idents);
     write_ndjson(&format!("{out}/ctxs.ndjson"), &ctxs);
 
     let mut tw = BufWriter::new(File::create(format!("{out}/trace.ndjson")).unwrap());
@@ -128,6 +136,7 @@ fn gen_lang(a: &HashMap<String, String>) {
             collect_hints(&ctxs[ci - 1], &mut hints);
         }
         let value_mode = family != "c01" && family != "c13" && family != "c07" && family != "c11" && family != "soup" && r.random_range(0..6) == 0;
+        let text_mode = family == "text";
         let mut g = FilterGen {
             r: &mut r,
             spec,
@@ -245,7 +254,12 @@ fn gen_lang(a: &HashMap<String, String>) {
             }
         }
         let ts = alias_variant(&mut r, &ts);
-        let src = if r.random_range(0..2) == 0 {
+        let src = if text_mode {
+            // the text itself is the subject: white space of any kind in any gap (also none at all), then
+            // possibly a few character-level corruptions
+            let t = wild_layout(&mut r, &ts);
+            if r.random_range(0..3) == 0 { corrupt_text(&mut r, &t) } else { t }
+        } else if r.random_range(0..2) == 0 {
             render(&ts)
         } else {
             random_layout(&mut r, &ts)
@@ -294,6 +308,20 @@ fn gen_lang(a: &HashMap<String, String>) {
             *stats.entry(format!("canon.{}", vars[0]["ok"])).or_default() += 1;
             json!({"ev": "canon", "id": k, "sch": si + 1, "max": max, "ts": ts, "src": src, "vars": vars,
                    "ts2": ts2, "other": o2, "eq12": eq12})
+        } else if text_mode {
+            let chars: Vec<u32> = src.chars().map(|c| c as u32).collect();
+            let cids: Vec<usize> = by_scheme[si].iter().take(3).cloned().collect();
+            if value_mode {
+                let o = observe_value(&w, si + 1, max, &src, &cids, &[]);
+                *stats.entry(format!("textvalue.{}", o.out)).or_default() += 1;
+                json!({"ev": "text", "id": k, "sch": si + 1, "max": max, "star": star, "value": true, "chars": chars, "src": src,
+                       "ok": o.ok, "out": o.out, "ast": o.ast, "vruns": o.runs, "runs": []})
+            } else {
+                let o = observe_filter(&w, si + 1, max, &src, &cids, &[]);
+                *stats.entry(format!("text.{}", o.out)).or_default() += 1;
+                json!({"ev": "text", "id": k, "sch": si + 1, "max": max, "star": star, "value": false, "chars": chars, "src": src,
+                       "ok": o.ok, "out": o.out, "ast": o.ast, "runs": o.runs, "vruns": []})
+            }
         } else if value_mode {
             let o = observe_value(&w, si + 1, max, &src, &by_scheme[si], &uses);
             *stats.entry(format!("value.{}", o.out)).or_default() += 1;
@@ -378,9 +406,12 @@ fn replay(a: &HashMap<String, String>) -> i32 {
     for v in &vectors {
         n += 1;
         let ev = v["ev"].as_str().unwrap_or("filter");
-        let mut ts: Vec<Tok> = serde_json::from_value(v["ts"].clone()).expect("tokens");
+        let mut ts: Vec<Tok> = if v.get("ts").is_some() { serde_json::from_value(v["ts"].clone()).expect("tokens") } else { vec![] };
         fill_txt(&mut ts);
-        let src = match (v.get("src").and_then(|s| s.as_str()), v.get("sep").and_then(|s| s.as_str())) {
+        // a text vector of the character-level model: code points instead of tokens
+        let from_chars: Option<String> = v.get("chars").and_then(|c| serde_json::from_value::<Vec<u32>>(c.clone()).ok())
+            .map(|cs| cs.into_iter().filter_map(char::from_u32).collect());
+        let src = match (from_chars.as_deref().or(v.get("src").and_then(|s| s.as_str())), v.get("sep").and_then(|s| s.as_str())) {
             (Some(s), _) => s.to_string(),
             // a layout chosen by the model: the same white space in every gap that admits one
             (None, Some(sep)) => {
@@ -515,6 +546,29 @@ fn reobserve(a: &HashMap<String, String>) -> i32 {
                         e[k] = o[k].clone();
                     }
                 }
+            }
+            "text" => {
+                let src = e["src"].as_str().unwrap().to_string();
+                let sch = e["sch"].as_u64().unwrap() as usize;
+                let max = e["max"].as_u64().unwrap_or(128) as u16;
+                lang::set_star_limit(e.get("star").and_then(|s| s.as_i64()).unwrap_or(-1));
+                let value = e["value"] == true;
+                let key = if value { "vruns" } else { "runs" };
+                let cids: Vec<usize> = e[key].as_array().map(|r| r.iter().map(|x| x["ctx"].as_u64().unwrap() as usize).collect()).unwrap_or_default();
+                let cids: Vec<usize> = if cids.is_empty() {
+                    w.ctxs.iter().enumerate().filter(|(_, c)| c.sch == sch).map(|(i, _)| i + 1).take(3).collect()
+                } else {
+                    cids
+                };
+                let o = if value {
+                    serde_json::to_value(observe_value(&w, sch, max, &src, &cids, &[])).unwrap()
+                } else {
+                    serde_json::to_value(observe_filter(&w, sch, max, &src, &cids, &[])).unwrap()
+                };
+                e["ok"] = o["ok"].clone();
+                e["out"] = o["out"].clone();
+                e["ast"] = o["ast"].clone();
+                e[key] = o["runs"].clone();
             }
             "script" if e["race"] == true => {
                 // a schedule-dependent observation: run the race again (up to 200 fresh processes) and report the
